@@ -193,7 +193,7 @@ func (fc *FnCtx) frameObligations(entry, exit *State, env *Env, c *Contract) {
 	al0 := g.get(entry, "$alloc")
 	for _, k := range g.keyOrder {
 		ki := g.keys[k]
-		if ki.kind == "alloc" || ki.kind == "visited" || whole[k] {
+		if ki.kind == "alloc" || ki.kind == "visited" || ki.kind == "lockstate" || whole[k] {
 			continue
 		}
 		a, b := g.get(entry, k), g.get(exit, k)
@@ -245,6 +245,27 @@ func (fc *FnCtx) specialInvoke(ins ssa.Instruction, cc *ssa.CallCommon, recv Val
 	return false
 }
 
+// funcParamCall: a call through a function-typed parameter that has a `funcparam` contract.
 func (fc *FnCtx) funcParamCall(ins ssa.Instruction, cc *ssa.CallCommon, fv Val, args []Val, setResult func([]Val)) bool {
+	// find the root-most context whose contract names this parameter
+	name := ""
+	switch p := cc.Value.(type) {
+	case *ssa.Parameter:
+		name = p.Name()
+	case *ssa.FreeVar:
+		name = p.Name()
+	default:
+		return false
+	}
+	for c := fc; c != nil; c = c.parent {
+		if c.c != nil && c.c.FuncParams != nil {
+			if fp, ok := c.c.FuncParams[name]; ok {
+				sig := cc.Signature()
+				fc.g.trusted["assumed: callbacks passed as "+c.c.Key+"."+name+" satisfy its funcparam contract (frame: "+strings.Join(fp.Modifies, ", ")+")"] = true
+				setResult(fc.applyContract(ins, fp, c.c.Key+"."+name, sig, args, false, nil))
+				return true
+			}
+		}
+	}
 	return false
 }
